@@ -179,7 +179,7 @@ extern int mpt_graph_set(MPT_STRUCT(graph) *gr, const char *name, MPT_INTERFACE(
 		}
 		return len;
 	}
-	if (!strcmp(name, "type") || !strcasecmp(name, "gridtype")) {
+	if (!strcmp(name, "type") || !strcasecmp(name, "grid") || !strcasecmp(name, "gridtype")) {
 		if (!src || !(len = src->_vptr->convert(src, 'c', &gr->grid))) {
 			gr->grid = def_graph.grid;
 			return 0;
